@@ -187,6 +187,19 @@ fn reset_clock() {
     *T0.lock().unwrap() = Some(Instant::now());
     POINTS.lock().unwrap().clear();
 }
+/// fsync calls on the watched directory with the time they were issued (gate callback of the shim)
+static FSYNCS: Mutex<Vec<(u64, String)>> = Mutex::new(Vec::new());
+fn fsync_gate(kind: &'static str, file: &str) {
+    if kind == "fsync" {
+        let t = now_ms();
+        FSYNCS.lock().unwrap().push((t, file.to_string()));
+    }
+}
+fn fsyncs_json() -> Value {
+    json!(FSYNCS.lock().unwrap().iter().map(|(t, f)| json!({"t": t, "file": f, "id": f.split('.').next().and_then(|x| x.parse::<i64>().ok()).unwrap_or(-1),
+                                                            "data": f.ends_with(".bitcask.data")})).collect::<Vec<_>>())
+}
+
 /// a driver event in the same ordered log as the hook points (the life-cycle timeline)
 fn mark(name: &'static str) {
     let t = now_ms();
@@ -561,6 +574,8 @@ fn bg_mode(inputs: &[Value], si: usize, sn: usize, out: &mut TraceOut, pend: &Pe
             // for it and must still force the file (a tick that is skipped is a missed interval)
             let cfg = json!({"sync": {"interval_ms": interval}, "max_file_size": 1_000_000});
             shim::start(&dir, false);
+            FSYNCS.lock().unwrap().clear();
+            shim::set_syscall_gate(Some(fsync_gate));
             let kv = make_config(&dir, &cfg).open().expect("open");
             let h = kv.get_handle();
             let t_end = Instant::now() + Duration::from_millis(interval * observe_intervals);
@@ -584,7 +599,9 @@ fn bg_mode(inputs: &[Value], si: usize, sn: usize, out: &mut TraceOut, pend: &Pe
             std::thread::sleep(Duration::from_millis(interval + 50));
             let calls = shim::take_calls();
             ev["sync_wakes"] = json!(points("bg.sync.woke"));
-            ev["fsyncs"] = json!(calls.iter().filter(|c| c.kind == "fsync").map(|c| json!({"file": c.file, "id": c.file.split('.').next().and_then(|x| x.parse::<i64>().ok()).unwrap_or(-1), "data": c.file.ends_with(".bitcask.data")})).collect::<Vec<_>>());
+            let _ = calls;
+            ev["fsyncs"] = fsyncs_json();
+            shim::set_syscall_gate(None);
             ev["actives"] = json!([]);
             ev["interval_ms"] = json!(interval);
             ev["observed_ms"] = json!(now_ms());
@@ -594,6 +611,8 @@ fn bg_mode(inputs: &[Value], si: usize, sn: usize, out: &mut TraceOut, pend: &Pe
             // interval sync: which file is fsynced when, across rotations of the active file
             let cfg = json!({"sync": {"interval_ms": interval}, "max_file_size": 300});
             shim::start(&dir, false);
+            FSYNCS.lock().unwrap().clear();
+            shim::set_syscall_gate(Some(fsync_gate));
             let kv = make_config(&dir, &cfg).open().expect("open");
             let h = kv.get_handle();
             let mut actives: Vec<Value> = vec![];
@@ -616,7 +635,9 @@ fn bg_mode(inputs: &[Value], si: usize, sn: usize, out: &mut TraceOut, pend: &Pe
             // timestamps of fsyncs are not in the shim record: pair them with the hook point
             // bg.sync.woke, which fires right before each periodic sync
             ev["sync_wakes"] = json!(points("bg.sync.woke"));
-            ev["fsyncs"] = json!(syncs);
+            let _ = syncs;
+            ev["fsyncs"] = fsyncs_json();
+            shim::set_syscall_gate(None);
             ev["actives"] = json!(actives);
             ev["interval_ms"] = json!(interval);
             ev["observed_ms"] = json!(now_ms());
